@@ -295,7 +295,8 @@ def fixed_cases(n):
            "labels": [M.enc(x) for x in ["B", "B'", '"B']]}
     # vectors with special structure: first weight equal to the mean, equal weights, a zero in front, one dominant group
     for i, ws in enumerate([["2", "1", "3"], ["5", "1", "9"], ["1", "0", "2"], ["3", "1", "2", "6"], ["1", "1", "1"], ["0", "1", "1"],
-                            ["1", "2", "3", "4", "5", "6", "7", "8"], ["0.5", "0.25", "0.75"], ["10", "1", "1", "1", "1", "1", "1", "4"]]):
+                            ["1", "2", "3", "4", "5", "6", "7", "8"], ["0.5", "0.25", "0.75"], ["10", "1", "1", "1", "1", "1", "1", "4"],
+                            ["0.0000000000002", "0.0000000000006"], ["0.0000000000001", "0", "0.0000000000002", "0.0000000000001"], ["3" + "0" * 40, "1" + "0" * 40]]):
         yield {"second": "fresh", "family": fams[i % len(fams)], "offset": 1000 * i, "weights": ws, "salts": ["salt1", "salt2"], "n": n}
 
 
